@@ -222,6 +222,10 @@ def run(prop, seed, budget, ctx):
         jobs = {"A": lambda: deserialization_schema(List_(Item), default_conversion=ydc), "B": lambda: deserialization_schema(Foo, default_conversion=ydc),
                 "C": lambda: serialization_schema(Hold, default_conversion=yds)}
         if i % 2: jobs["C"] = lambda: deserialization_schema(Hold, default_conversion=ydc, all_refs=True)
+        if i % 4 == 3:
+            # four threads walking one class at the same time (more walkers than the depth a recursion guard tolerates)
+            jobs = {"A": lambda: deserialization_schema(Hold, default_conversion=ydc), "B": lambda: serialization_schema(Hold, default_conversion=yds),
+                    "C": lambda: deserialization_schema(Hold, default_conversion=ydc, all_refs=True), "D": lambda: deserialization_schema(Hold, default_conversion=ydc)}
         want = {k: json.dumps(fn(), sort_keys=True) for k, fn in jobs.items()}
         res = {}
         def mk(name):
@@ -229,7 +233,7 @@ def run(prop, seed, budget, ctx):
                 try: res[name] = json.dumps(jobs[name](), sort_keys=True)
                 except BaseException as e: res[name] = "EXC:" + type(e).__name__ + ":" + str(e)[:60]
             return fn
-        schedule = [rnd.choice("ABC") for _ in range(120)]
+        schedule = [rnd.choice(sorted(jobs)) for _ in range(160)]
         sched = Sched(schedule, tl); state["sched"] = sched
         finished = sched.start({k: mk(k) for k in jobs})
         state["sched"] = None
